@@ -420,6 +420,7 @@ func (ri *ReservationInfo) UpdateReservation(r *schedulingv1alpha1.Reservation) 
 	if ri.Allocated != nil {
 		ri.Allocated = quotav1.Mask(ri.Allocated, ri.ResourceNames)
 	}
+	ri.recalculateAllocatedOfAssignedPods()
 	reserved := util.GetNodeReservationFromAnnotation(r.Annotations)
 	if len(reserved) > 0 {
 		reserved = quotav1.Mask(reserved, ri.ResourceNames)
@@ -459,6 +460,7 @@ func (ri *ReservationInfo) UpdatePod(pod *corev1.Pod) {
 	ri.Pod = pod
 	ri.AllocatablePorts = util.RequestedHostPorts(pod)
 	ri.Allocated = quotav1.Mask(ri.Allocated, ri.ResourceNames)
+	ri.recalculateAllocatedOfAssignedPods()
 	reserved := util.GetNodeReservationFromAnnotation(pod.Annotations)
 	if len(reserved) > 0 {
 		reserved = quotav1.Mask(reserved, ri.ResourceNames)
@@ -485,6 +487,20 @@ func (ri *ReservationInfo) UpdatePod(pod *corev1.Pod) {
 		parseError = utilerrors.NewAggregate(parseErrors)
 	}
 	ri.ParseError = parseError
+}
+
+// recalculateAllocatedOfAssignedPods recalculates the allocated amount from the assigned pods in the current
+// reserved resource names. Masking the old sum is not enough when the reserved resource names grow, since the
+// old sum does not hold what the assigned pods request of the newly reserved resources.
+func (ri *ReservationInfo) recalculateAllocatedOfAssignedPods() {
+	if len(ri.AssignedPods) == 0 {
+		return
+	}
+	var allocated corev1.ResourceList
+	for _, requirement := range ri.AssignedPods {
+		allocated = quotav1.Add(allocated, quotav1.Mask(requirement.Requests, ri.ResourceNames))
+	}
+	ri.Allocated = allocated
 }
 
 func (ri *ReservationInfo) AddAssignedPod(pod *corev1.Pod) {
